@@ -34,11 +34,12 @@ def scriptAt {α : Type} [Inhabited α] (l : List α) (i : Nat) (dflt : α) : α
   | [] => dflt
   | _ => l.getD i (l.getLastD dflt)
 
-/-- Text the emitted code renders for a map key (compiler.go:785-800). `none`: panic (nil pointer key). -/
-def renderKey (k : Node) (key : Val) (ftext : Val → Bytes) : Option Bytes :=
+/-- Text the emitted code renders for a map key (compiler.go:785-800). `none`: panic (nil pointer key,
+`nilKeyPanics` = the emitter as it is); repaired, the key text of a nil pointer key stays empty. -/
+def renderKey (nilKeyPanics : Bool) (k : Node) (key : Val) (ftext : Val → Bytes) : Option Bytes :=
   let kv := if k.ptr then (match key with | .ptr w => some w | _ => none) else some key
   match kv with
-  | none => none
+  | none => if nilKeyPanics then none else some []
   | some w =>
     match w with
     | .str s => some s
@@ -63,18 +64,18 @@ def loopElems (sc : LoopScript) (e : Node) (es : List Val) (i : Nat) : List Loop
                            node := e, val := x, ins := elemInspector e }
     if scriptAt sc.ctl i 0 == 1 then [g] else g :: loopElems sc e rest (i + 1)
 
-def loopEntries (sc : LoopScript) (k mv : Node) (ftext : Val → Bytes) (ks vs : List Val) (i : Nat) : LoopR :=
+def loopEntries (nkp : Bool) (sc : LoopScript) (k mv : Node) (ftext : Val → Bytes) (ks vs : List Val) (i : Nat) : LoopR :=
   match ks, vs with
   | key :: ks', x :: vs' =>
     let want := scriptAt sc.wantKey i false
-    let keyText := if want then renderKey k key ftext else some []
+    let keyText := if want then renderKey nkp k key ftext else some []
     match keyText with
     | none => ⟨[], .panic⟩
     | some t =>
       let g : LoopGroup := { key := if want then some t else none, node := mv, val := x, ins := elemInspector mv }
       if scriptAt sc.ctl i 0 == 1 then ⟨[g], .done⟩
       else
-        let r := loopEntries sc k mv ftext ks' vs' (i + 1)
+        let r := loopEntries nkp sc k mv ftext ks' vs' (i + 1)
         ⟨g :: r.groups, r.fin⟩
   | _, _ => ⟨[], .done⟩
 
@@ -86,7 +87,7 @@ def loopN (cfg : GenCfg) (sc : LoopScript) (ftext : Val → Bytes) (n : Node) (v
     -- no path-length test: the first map reached is looped whatever remains of the path
     if i.ptr && v.isNilPtr then ⟨[], .done⟩ else
     (match derefIf i.ptr v with
-     | .map _ ks vs => loopEntries sc k mv ftext ks vs 0
+     | .map _ ks vs => loopEntries cfg.loopNilKeyPanics sc k mv ftext ks vs 0
      | _ => ⟨[], .panic⟩)
   | .slice i e =>
     if i.typn == "[]byte" then ⟨[], .done⟩ else
